@@ -236,7 +236,7 @@ pub struct RUnit {
 
 const LIMIT: usize = 200_000;
 
-fn read_back(secs: &Secs, le: bool) -> Result<Vec<RUnit>, String> {
+pub fn read_back(secs: &Secs, le: bool) -> Result<Vec<RUnit>, String> {
     let endian = endian_of(le);
     let dwarf: gimli::Dwarf<Slice<'_>> =
         gimli::Dwarf::load(|id| -> Result<Slice<'_>, gimli::Error> { Ok(gimli::EndianSlice::new(secs.get(id), endian)) }).map_err(|e| format!("load: {e:?}"))?;
